@@ -21,6 +21,7 @@ import (
 // by zero wires up to the input's width.
 func C05native(p *load.Program, run *report.Run) {
 	const rule = "native-circuit-inputs-padded"
+	canonFor(p)
 	run.Rule(rule, "the Circ arm of Program.Circuit and of Program.Stream, interpreted from source up to the point where the input wires are collected, yields for two inputs of widths 2..3 and operands of 0..width wires the list operand0 ++ zero^(B0-n0) ++ operand1 ++ zero^(B1-n1)")
 	pkg, fdC := dispatch.FindFunc(p, "compiler/ssa", "Program", "Circuit")
 	_, fdS := dispatch.FindFunc(p, "compiler/ssa", "Program", "Stream")
